@@ -15,7 +15,7 @@ add("C02", "runtime differential monitor: cpu65c816 vs cpualt in lockstep (regis
     "whole 16 MiB mapped on both sides with the same lazily-random image; equal-but-wrong behaviour is C01's concern", "DESIGN.md 5 C02")
 add("C03", "runtime encoding monitor: every Emitter method (enumerated by reflection) x every tracked width state x operand sweep, compared with an independent encoder and decoded back by the model decoder and by both library CPUs",
     "exhaustive for 8- and 16-bit operands and int8 displacements; 24-bit operands sampled in quick and exhaustive in thorough",
-    "method-name -> (mnemonic, mode) table written by hand in /verif/props/c03.go; independent opcode matrix in internal/ref", "DESIGN.md 5 C03")
+    "method-name -> (mnemonic, mode) table written by hand in /verif/props/emit.go, methods outside it read by the same naming convention (props/discover.go); independent opcode matrix in internal/ref", "DESIGN.md 5 C03")
 add("C04", "exhaustive runtime sweep composing the real functions (inverse laws) over all 2^24 bus and 2^24 pak addresses x 4 mappers",
     "exhaustive over the whole stated input space in both tiers", "pak-side class windows as stated in the property", "DESIGN.md 5 C04")
 add("C05", "exhaustive runtime sweep: structural invariants (error shape, windows, reject set, 8 KiB page uniformity/order, console-owned agreement) + declarative region-table oracle",
@@ -75,7 +75,7 @@ def main():
                 "engine": "vcheck",
                 "level_claimed": {"category": "exploration", "text": text, "design_ref": ref},
                 "level_note": note,
-                "technique": t + ("" if i == "C18" else "; the whole monitor repeats itself in a child process built for GOARCH=386 (32-bit int/uint) with GOGC=10"),
+                "technique": t + ("" if i == "C18" else "; the whole monitor repeats itself in a child process built for GOARCH=386 (32-bit int/uint) with GOGC=10; further child processes: a probe of the property's area on js/wasm, natively under 1-12 processors (taskset) and in thousands of identical cold starts, plus a build per custom build tag and a run per environment variable found in the library's source"),
             })
         else:
             na.append({"property_id": i, "reason": "monitor not built yet (see DESIGN.md section 5); will be claimed once ./check %s exists" % i})
